@@ -137,7 +137,9 @@ func (sp *spec) build() (func(), func(x *vsched.Exec) (string, error)) {
 		rec = gprog.NewRun(nil)
 		started := map[string]bool{}
 		rec.Body = func(ctx context.Context, path string, in gprog.Val) error {
+			vsched.HLock() // started/finished are shared by the node goroutines (no-op under the scheduler, a mutex in the race pass)
 			started[path] = true
+			vsched.HUnlock()
 			b := sp.beh[path]
 			for i := 0; i < b.yields; i++ {
 				vsched.Yield()
@@ -150,14 +152,20 @@ func (sp *spec) build() (func(), func(x *vsched.Exec) (string, error)) {
 			}
 			return nil
 		}
-		rec.After = func(ctx context.Context, path string) { finished[path] = true }
+		rec.After = func(ctx context.Context, path string) {
+			vsched.HLock()
+			finished[path] = true
+			vsched.HUnlock()
+		}
 		res, rerr = gprog.Exec(context.Background(), r, rec, sp.call, input)
 		returned = true
+		vsched.HLock() // after a failed run other node bodies may still be running
 		for p := range started {
 			if !finished[p] && sp.beh[p].fail == "" {
 				unfinishedAtReturn = append(unfinishedAtReturn, p)
 			}
 		}
+		vsched.HUnlock()
 		sort.Strings(unfinishedAtReturn)
 	}
 	check := func(x *vsched.Exec) (string, error) {
@@ -241,9 +249,11 @@ func main() {
 		"sequential consistency at synchronisation granularity; node bodies are atomic between their explicit yields",
 		"map iteration order restricted to ascending and descending key order (both explored)",
 		"the rewriter/shim model Go channel, select, mutex semantics faithfully",
+		harness.RacePassAssumption,
 	}
-	c.Res.Explanation = "stateless exhaustive exploration of real graph runs under the controlled scheduler; oracle per execution: result and set of node executions equal the sequential reference model, every started node collected exactly once (post-handler count), a successful run returns only after every started node finished, a failing node fails the run with its error, no deadlock and no goroutine left blocked (exact, from the thread table)"
+	c.Res.Explanation = "stateless exhaustive exploration of real graph runs under the controlled scheduler; oracle per execution: result and set of node executions equal the sequential reference model, every started node collected exactly once (post-handler count), a successful run returns only after every started node finished, a failing node fails the run with its error, no deadlock and no goroutine left blocked (exact, from the thread table). " + harness.RacePassExplanation
 	quick := c.Quick()
+	rp := c.StartRacePass("./checks/c03") // worker 0 only: native -race build of this package, free runs of the scenario bodies
 	sh := shapes()
 	names := harness.SortedKeys(sh)
 	bounds := []int{0, 1, 2}
@@ -321,5 +331,6 @@ func main() {
 		}
 	}
 	c.ExploreAll()
+	rp.Collect()
 	c.Finish()
 }
